@@ -74,6 +74,9 @@ def parse_shape(text):
             if head == "opt":
                 return ("opt", conv(args[0]))
             if head == "rec":
+                if len(args) > 1:
+                    # rec[A,B,..]: an instance of any ONE of the listed record classes (see urec_as_tuple / ExprMixin.coerce)
+                    return ("urec", tuple(a.id for a in args))
                 return ("rec", args[0].id)
             if head == "enum":
                 if len(args) > 1:
@@ -340,7 +343,17 @@ def key_terms(k):
     return flat
 
 
+def urec_as_tuple(shape):
+    """rec[A,B,..] - a value that is an instance of one of several record classes (frozen dataclasses: instances of different
+    classes are never equal, instances of one class are equal iff their fields are) - is represented as the tuple
+    (tag, a, b, ..): tag = position of the value's class in the list, the component of that class holds the record and every
+    other component is the class's fixed default record.  Two such tuples are equal iff the tags and the records are."""
+    return ("tuple", (("int",),) + tuple(("rec", c) for c in shape[1]))
+
+
 def _key_sorts_flat(kshape):
+    if kshape[0] == "urec":
+        return _key_sorts_flat(urec_as_tuple(kshape))
     if kshape[0] == "tuple":
         out = []
         for s in kshape[1]:
@@ -432,6 +445,8 @@ def fresh(shape, name, idx=()):
     if kind == "dict":
         ks = tuple(key_sorts(shape[1]))
         return VDict(shape[1], shape[2], _mk_arr(name + ".dom", idx + ks, z3.BoolSort()), fresh(shape[2], name + ".val", idx + ks))
+    if kind == "urec":
+        return fresh(urec_as_tuple(shape), name, idx)
     if kind == "rec":
         info = REC_TABLE.get(shape[1])
         if info is None:
